@@ -76,7 +76,7 @@ def c01_families(run):
                invariants=inv),
         Family("path", ".%2eE/\\" + L, 4 if q else 5, prefixes=["http://h/", "x://h/", "x:/", "file:///"], suffixes=["", "?q"] if not q else [""], invariants=inv),
         Family("file", "C|:/\\?#" + L + ".", 3 if q else 4, prefixes=["file:", "", "/", "//"],
-               bases=["file:///C:/d/e", "file://fh/x/y"] + ([] if q else ["file:///D|/a", "file:///"]), invariants=inv),
+               bases=["file:///C:/d/e", "file://fh/x/y?q#f"] + ([] if q else ["file:///D|/a", "file:///", "file:///a/b?q"]), invariants=inv),
         Family("ipv4deep", "01.", 8 if q else 10, prefixes=["http://"], invariants=inv),
         Family("ipv6deep", "1:.", 7 if q else 9, prefixes=["http://["], suffixes=["]"], invariants=inv),
         Family("brackets", "[]:1", 6 if q else 7, prefixes=["http://", "x://"], suffixes=["/"], invariants=inv),
@@ -267,6 +267,14 @@ def check_c19(run):
     for f in fams:
         f.invariants += ["GettersInv"]
     run_parse_families(run, fams, keys="derived,hostname,port,href")
+    # the same accessors under a parser with another special-scheme table ("the URL is special" is relative to its parser)
+    gstarts = ["gopher://0x7f.1/", "gopher://h:70/x", "http://1.2.3.4:70/", "gopher://[::1]:7/", "x://1.2.3.4/", "file://1.2.3.4/p"]
+    gops = [("protocol", v) for v in ("gopher", "http", "x", "file")] + [("host", v) for v in ("5.6.7.8", "h2", "[::2]:70", "0x10.1:80")] + [("port", v) for v in ("70", "", "0", "80")]
+    for pname in ("special_gopher", "special_nofile"):
+        fam = ApiFamily("derived_" + pname, gstarts, setter_ops=gops, refs=["/x", "//9.9.9.9", "?q"], depth=3, nh=2, clone=True, popts='OptsOf("%s")' % pname)
+        mod = fam.write(run.scratch)
+        S, M, st = run.tlc_replay(mod, fam.name, cfg=mod + ".cfg", replay_args=["--keys", "derived,hostname,port,href", "--spmodes", "late", "--parser", pname])
+        absorb(run, M, S, fam.name)
     run_traces(run, salt=19, parse_only=20)
     return run.finish("model_checking", "the derived accessors are functions of the primary components in the specification (DerivedG checked by TLC on "
                       "every state); histories of parse / resolve / setter / clone are replayed and IsIPv4, IsIPv6, DecodedPort, Scheme, Query, Fragment, "
@@ -828,7 +836,7 @@ def opt_families(run):
     inv = ["PtrOk", "TriggersSufficient"]
     fams = [
         Family("optmix", "/\\.%2|'\"`~ #?@:" + L, 2 if q else 3,
-               prefixes=["http://h/", "x://h/", "gopher://h:70/", "file:///", "x:", "http://h/?", "x://h/#", "http://h/#", "", "gopher:", "http://u:p@h:8", "ws://"][:12 if not q else 8],
+               prefixes=["http://h/", "x://h/", "gopher://h:70/", "file:///", "x:", "http://h/?", "x://h/#", "gopher://", "http://h/#", "", "gopher:", "http://u:p@h:8", "ws://"][:13 if not q else 8],
                bases=["http://u:p@b:81//p/./q?r#s"] if q else ["http://u:p@b:81//p/./q?r#s", "gopher://g/x"], invariants=inv),
         Family("optpath", "/\\.%C|2e" + L, 3 if q else 4, prefixes=["http://h/", "file:", "file:///"], suffixes=["", "?a'b#c`d"] if not q else [""], invariants=inv),
         Family("optquery", "&=a+'\"|~%b", 2 if q else 4, prefixes=["http://h/?", "x://h/?", "http://h/?b=2&a=1&"], suffixes=["", "#f|~\""], invariants=inv),
@@ -938,8 +946,11 @@ def check_c18(run):
     run.selftest()
     q = run.tier == "quick"
     gf = canon_family(run, "classes", "class", 2 if q else 3, False)
+    gf.names = ["a", "b"]          # two distinct non-empty names: the order of the parameters matters for sorting profiles
+    gf.maxpairs = 2
     if q:
-        gf.maxsegs, gf.maxpairs = 1, 1
+        gf.maxsegs = 1
+        gf.creds, gf.hosts, gf.values = gf.creds[:1], gf.hosts[:1], gf.values[:1]
     mod = gf.write(run.scratch)
     profs = ["GoogleSafeBrowsing", "Semantic", "canon:repeated_decode", "WhatWg", "WhatWgSortQuery", "canon:remove_port+sort_keys", "canon:remove_fragment+sort_param+repeated_decode"]
     bad, n = run.tlc_events(mod, gf.name, "class", cfg=mod + ".cfg", chunks=14, events_args=["--names", ",".join(profs)])
@@ -993,7 +1004,7 @@ def check_c02(run):
     for fam in nasty:
         mod = fam.write(run.scratch)
         bad, n = run.tlc_events(mod, fam.name, "robust", cfg=mod + ".cfg", chunks=12, tool="robust",
-                                events_args=["--seed", str(run.seed), "--tier", run.tier, "--cfg-per-input", "6" if q else "24", "--configs", cfgfile])
+                                events_args=["--seed", str(run.seed), "--tier", run.tier, "--cfg-per-input", "6" if q else "8", "--configs", cfgfile], timeout=1500)
         absorb_robust(run, bad, fam.name)
         run.distinct += n
     # pumped long inputs and degenerate ones
